@@ -1,5 +1,5 @@
 """C04 -- goto only jumps forward and outward."""
-from rules import hirq, mirq, balance
+from rules import hirq, mirq, balance, visit
 from rules.core import walk, norm_path, AnchorMissing
 
 LEVEL = "other"
@@ -165,6 +165,24 @@ def r7_order(run, F):
            "label scoping must precede variable scoping (pruning relies on resolved label ids): %s" % cs)
 
 
+def r8_visit(run, F):
+    """T2: the label pass reaches every statement (a goto or label in an unvisited block is never resolved or checked)."""
+    C = F.lib
+    rel = visit.type_closure(C, {"alpha::common::Statement"})
+    TR = "alpha::scoper::label_references::Analyzable"
+    impls = [b for b in C.bodies.values() if b.get("impl_trait") == TR and "{closure" not in b["npath"]]
+    run.require(len(impls) >= 4, "label_references Analyzable impls not found (%d)" % len(impls))
+
+    def is_trav(c):
+        return c.endswith("label_references::Analyzable>::analyze") or c == TR + "::analyze"
+    n = 0
+    for b in impls:
+        def rep(key, ok, where, detail, sample):
+            run.ob("R8-LABEL-VISITS", key, ok, where, detail + ": gotos and labels inside it are never resolved (no E400/E420, forward/outward rule unchecked)", sample)
+        n += visit.check_impl(F, C, b, rel, is_trav, rep)
+    run.require(n >= 6, "too few visit obligations (%d)" % n)
+
+
 def check(run):
     F = run.facts("B")
     r1_balance(run, F)
@@ -174,10 +192,11 @@ def check(run):
     r5_codes(run, F)
     r6_generator(run, F)
     r7_order(run, F)
+    r8_visit(run, F)
     if run.tier == "thorough":
         # the scoper is compiled in both configurations: repeat the configuration-independent rules on cfg A
         FA = run.facts("A")
         run.key_prefix = "cfgA:"
-        for fn in (r1_balance, r2_reverse, r3_lookup, r4_arms, r5_codes, r7_order):
+        for fn in (r1_balance, r2_reverse, r3_lookup, r4_arms, r5_codes, r7_order, r8_visit):
             fn(run, FA)
         run.key_prefix = ""
